@@ -146,6 +146,27 @@ func (l loopSpec) sources() (plain, twin string) {
 		fmt.Fprintf(&pl, "%sfor i := %s; ; %s {\n%s%s\tif %s {\n%s\t\tbreak\n%s\t}\n%s%s}\n", ind, start, l.stepStmt(), skip, ind, ncond, ind, ind, body, ind)
 		skipTw := ind + "\tif i&1 == 1 {\n" + ind + "\t\tbodies++\n" + ind + "\t\t" + l.stepStmt() + "\n" + ind + "\t\tcontinue\n" + ind + "\t}\n"
 		fmt.Fprintf(&tw, "%si := %s\n%sfor {\n%s%s\thdr = append(hdr, int(i))\n%s%s\tif %s {\n%s\t\tbreak\n%s\t}\n%s%s\t%s\n%s}\n", ind, start, ind, guard, ind, skipTw, ind, ncond, ind, ind, bodyTw, ind, l.stepStmt(), ind)
+	case "two-latches-a", "two-latches-b", "latch-unchanged", "latch-reset", "latch-twice":
+		// loops WITHOUT post statement, so that a `continue` is a back edge of its own: the counter reaches
+		// the header over two back edges that do not carry the same update (stepped by different amounts /
+		// stepped on one path only / set to its start value once / stepped once before and once after the
+		// `continue`) - not an induction variable, whichever back edge an implementation looks at first
+		st1 := l.stepStmt()
+		st2 := st1 + "\n" + ind + "\t\t" + st1
+		pre, when, contBody, fall := "", "q&1 == 1", st2, st1
+		switch l.Form {
+		case "two-latches-b":
+			contBody, fall = st1, st1+"\n"+ind+"\t"+st1
+		case "latch-unchanged":
+			contBody, fall = st1, ""
+		case "latch-reset":
+			when, contBody = "q == 1021", "i = "+start
+		case "latch-twice":
+			pre, contBody = ind+"\t"+st1+"\n", ""
+		}
+		cont := ind + "\tq += 7\n" + pre + ind + "\tif " + when + " {\n" + ind + "\t\t" + contBody + "\n" + ind + "\t\tcontinue\n" + ind + "\t}\n"
+		fmt.Fprintf(&pl, "%si := %s\n%sq := 1000\n%sfor %s {\n%s%s%s\t%s\n%s}\n", ind, start, ind, ind, cond, cont, body, ind, fall, ind)
+		fmt.Fprintf(&tw, "%si := %s\n%sq := 1000\n%sfor {\n%s%s\thdr = append(hdr, int(i))\n%s\tif %s {\n%s\t\tbreak\n%s\t}\n%s\tbodies++\n%s%s\tt += int(i)\n%s\t%s\n%s}\n", ind, start, ind, ind, guard, ind, ind, ncond, ind, ind, ind, cont, ind, ind, fall, ind)
 	case "geometric":
 		fmt.Fprintf(&pl, "%sfor i := %s; %s; i *= %d {\n%s%s}\n", ind, start, cond, l.Step, body, ind)
 		fmt.Fprintf(&tw, "%si := %s\n%sfor {\n%s%s\thdr = append(hdr, int(i))\n%s\tif %s {\n%s\t\tbreak\n%s\t}\n%s%s\ti *= %d\n%s}\n", ind, start, ind, guard, ind, ind, ncond, ind, ind, bodyTw, ind, l.Step, ind)
@@ -188,7 +209,7 @@ func genLoopSpec(r *Rng, idx int) loopSpec {
 		// step points AWAY from the limit: terminates only when the test fails at once
 		l.Step = -l.Step
 	}
-	l.Form = pick(r, []string{"top", "top", "top", "breaktest", "breaktest", "bottom", "top-with-break", "top-with-continue", "cond-update", "continue-before-test"})
+	l.Form = pick(r, []string{"top", "top", "top", "breaktest", "breaktest", "bottom", "top-with-break", "top-with-continue", "cond-update", "continue-before-test", "two-latches-a", "two-latches-b", "latch-unchanged", "latch-reset", "latch-twice"})
 	if r.Chance(30) {
 		// a narrow counter: the end of the type's range is within reach, so the counter can wrap around
 		// before the test fails (the loop then keeps running)
